@@ -96,6 +96,9 @@ Definition run_C11 (cmd : Z) (ints : list Z) (arrs : list (list Q)) : option (li
   | 5%Z => (* clip on one R x C array: ints = [L; R; C], arrs = [x] *)
       let C := intn ints 2 in
       Some (qtab2 (intn ints 1) C (clip (intn ints 0) C 1 (fun i l => qnth (arr arrs 0) (i * C + l))))
+  | 6%Z => (* maybe_fix_sim_time_roundoff: arrs = [[dt]; times] *)
+      let dt := scalar arrs 0 0 in
+      Some (map (fix_time (fun x => rhe x) dt) (arr arrs 1))
   | _ => None
   end.
 
